@@ -211,6 +211,12 @@ class Ax(object):
             t = self._t(x)
             _assume_once(self.env, z3.Implies(t > 0, S.UF['EXP'](S.UF['LOG'](t)) == t))
 
+    def log_zero(self, x):
+        # log(x) = 0 exactly when x = 1
+        if self.on and isinstance(x, S.Sym):
+            t = self._t(x)
+            _assume_once(self.env, z3.Implies(t > 0, (S.UF['LOG'](t) == 0) == (t == 1)))
+
     def log_mono(self, a, b):
         if self.on and isinstance(a, S.Sym) and isinstance(b, S.Sym):
             ta, tb = self._t(a), self._t(b)
@@ -760,7 +766,12 @@ def make_scipy_stub(ctx, ob, fn, mode, nout):
         else:
             bounds = None
         ctx.bounds = bounds
-        ctx.v0 = f(_arr(env, x0), *args)
+        sim = kw.get('initial_simplex', None)
+        first = x0
+        if sim is not None:
+            # contract of scipy.optimize.fmin: with an initial simplex the first evaluation is at its first vertex
+            first = list(np.asarray(sim, dtype=object)[0])
+        ctx.v0 = f(_arr(env, first), *args)
         ctx.nevals += 1
         ctx.calls_after_start = len(ctx.rec.calls)
         x = v = None
@@ -810,6 +821,7 @@ def make_scipy_body(wname, n, mask, multinom, bpat, fp, full_output, aslist):
         if logw:
             for i in free:
                 ax.explog(p0[i])
+                ax.log_zero(p0[i])
                 for b in (lo_in[i], up_in[i]):
                     if b is not None:
                         ax.explog(b)
